@@ -70,7 +70,20 @@ func (x *Exec) evalLemma(st *State, fr *Frame, cl *Clause, binds map[string]SV) 
 	return tv.E, true
 }
 
-// evalClause evaluates a boolean clause to an SMT term.
+// evalAssume evaluates a clause that is about to be ASSUMED (an invariant at a loop head, a
+// callee's postcondition, a precondition of the unit). A clause that cannot be evaluated (it names
+// something the code no longer has) is reported as out of subset and assumed to be `true`:
+// assuming `false` would make everything behind it pass vacuously.
+func (x *Exec) evalAssume(st *State, fr *Frame, cl *Clause, binds map[string]SV) string {
+	n := len(x.oos)
+	g := x.evalClause(st, fr, cl, binds)
+	if len(x.oos) > n && g == "false" {
+		return "true"
+	}
+	return g
+}
+
+// evalClause evaluates a boolean clause to an SMT term (for an obligation: `false` if it cannot be evaluated).
 func (x *Exec) evalClause(st *State, fr *Frame, cl *Clause, binds map[string]SV) string {
 	e := x.newEnv(st, fr, binds)
 	v := e.eval(cl.Expr)
